@@ -503,10 +503,20 @@ Proof.
   destruct ((o_v4 o <=? 0) || (32 <? o_v4 o)) eqn:C; destruct ((o_v6 o <=? 0) || (128 <? o_v6 o)) eqn:D; lia.
 Qed.
 
+Lemma mask_bits_spec w bits x : mask_bits w bits x = (x / 2 ^ (w - bits) * 2 ^ (w - bits))%N.
+Proof. unfold mask_bits. cbv zeta. now rewrite N.shiftl_mul_pow2, N.shiftr_div_pow2. Qed.
+
+Lemma unmap_spec x :
+  unmap (A6 x) = if (x / two32 =? 65535)%N then A4 (x mod two32)%N else A6 x.
+Proof.
+  unfold unmap. rewrite N.shiftr_div_pow2. change (2 ^ 32)%N with two32.
+  change 4294967295%N with (N.ones 32). rewrite N.land_ones. reflexivity.
+Qed.
+
 (* a v4-mapped IPv6 address ::ffff:a.b.c.d is charged to the bucket of a.b.c.d *)
 Lemma mask_mapped o x : (x < two32)%N -> mask_addr o (A6 (65535 * two32 + x)) = mask_addr o (A4 x).
 Proof.
-  intros H. unfold mask_addr, unmap.
+  intros H. unfold mask_addr. rewrite unmap_spec.
   assert (((65535 * two32 + x) / two32 =? 65535)%N = true) as ->.
   { apply N.eqb_eq. unfold two32 in *. lia. }
   assert (((65535 * two32 + x) mod two32)%N = x) as ->.
@@ -515,21 +525,25 @@ Proof.
 Qed.
 
 Lemma mask_v4_24 o x : o_v4 o = 24 -> mask_addr o (A4 x) = A4 (x / 256 * 256)%N.
-Proof. intros H. unfold mask_addr, unmap, prefix_addr4. rewrite H. reflexivity. Qed.
+Proof.
+  intros H. unfold mask_addr, unmap, prefix_addr4. rewrite H. cbn [Z.leb Z.compare andb Pos.compare Pos.compare_cont].
+  rewrite mask_bits_spec. reflexivity.
+Qed.
 
 Lemma mask_v6_48 o x : o_v6 o = 48 -> (x / two32 <> 65535)%N ->
   mask_addr o (A6 x) = A6 (x / 2 ^ 80 * 2 ^ 80)%N.
 Proof.
-  intros H M. unfold mask_addr, unmap, prefix_addr6.
+  intros H M. unfold mask_addr. rewrite unmap_spec.
   assert ((x / two32 =? 65535)%N = false) as -> by (apply N.eqb_neq; exact M).
-  rewrite H. reflexivity.
+  unfold prefix_addr6. rewrite H. cbn [Z.leb Z.compare andb Pos.compare Pos.compare_cont].
+  rewrite mask_bits_spec. reflexivity.
 Qed.
 
 (* two addresses of one family share a bucket iff they agree on the first [bits] bits *)
 Lemma mask_bits_eq w bits x y :
   mask_bits w bits x = mask_bits w bits y <-> (x / 2 ^ (w - bits) = y / 2 ^ (w - bits))%N.
 Proof.
-  unfold mask_bits. split; intros H; [|now rewrite H].
+  rewrite !mask_bits_spec. split; intros H; [|now rewrite H].
   assert (2 ^ (w - bits) <> 0)%N as P by (apply N.pow_nonzero; discriminate).
   apply N.mul_cancel_r in H; auto.
 Qed.
